@@ -61,6 +61,7 @@ package aucoalesce
 //@ ensures[C15] msgOK(execve) && execve.data == old(execve.data)
 // C09 no-drop for EXECVE: unless a warning is attached, argc is kept and the arguments a0..a(argc-1) become Process.Args in order.
 //@ ensures[C09] len(event.Warnings) >= old(len(event.Warnings))
+//@ ensures[C09] !isNil(execve.error) ==> len(event.Warnings) > old(len(event.Warnings))
 //@ ensures[C09] len(event.Warnings) == old(len(event.Warnings)) ==> "argc" in execve.data && "argc" in event.Data && event.Data["argc"] == execve.data["argc"] && len(event.Process.Args) == strUval(execve.data["argc"], 10)
 //@ ensures[C09] len(event.Warnings) == old(len(event.Warnings)) ==> forall j int :: 0 <= j && j < len(event.Process.Args) ==> ("a" ++ strDec(j)) in execve.data && event.Process.Args[j] == execve.data["a" ++ strDec(j)]
 //@ loop 0 invariant event.Warnings == old(event.Warnings) && event.Data == old(event.Data) && (base(args) == 0 || fresh(args))
@@ -97,6 +98,7 @@ package aucoalesce
 // afterwards, with the record's value unless a (duplicate-key) warning was attached.
 //@ requires event.Data != msg.data
 //@ ensures[C09] len(event.Warnings) >= old(len(event.Warnings))
+//@ ensures[C09] !isNil(msg.error) ==> len(event.Warnings) > old(len(event.Warnings))
 //@ ensures[C09] isNil(msg.error) ==> forall k string :: k in old(msg.data) ==> k in event.Data && (event.Data[k] == old(msg.data)[k] || len(event.Warnings) > old(len(event.Warnings)))
 //@ loop 0 invariant data == old(msg.data) && len(event.Warnings) >= old(len(event.Warnings))
 //@ loop 0 invariant forall k string :: visited(k) ==> k in event.Data && (event.Data[k] == data[k] || len(event.Warnings) > old(len(event.Warnings)))
